@@ -228,3 +228,887 @@ Proof.
   - intros H i Hi. rewrite in_seq in Hi. specialize (H i ltac:(lia)).
     destruct cb; [apply Qleb_spec | apply Qltb_spec]; exact H.
 Qed.
+
+(* ================================================================================================
+   C16 extension (1): segmentIntersectPoint, rayIntersectPoint *)
+
+Definition sip_d (a1 a2 b1 b2 : pt) : Q :=
+  (py b1 - py b2) * (px a1 - px b1) - (px b1 - px b2) * (py a1 - py b1).
+Definition sip_e (a1 a2 b1 b2 : pt) : Q :=
+  (px a2 - px a1) * (py a1 - py b1) - (py a2 - py a1) * (px a1 - px b1).
+(* the 1-D closed ranges [p,q] and [r,s] (endpoints in any order) overlap *)
+Definition ranges_overlap (p q r s : Q) : bool :=
+  Qleb (Qmin' r s) (Qmax' p q) && Qleb (Qmin' p q) (Qmax' r s).
+Definition unit_range (v : Q) : bool := Qleb 0 v && Qleb v 1.
+
+Definition spec_segmentIntersectPoint (a1 a2 b1 b2 : pt) (x y : Q) : Z * Q * Q :=
+  let f := sip_den a1 a2 b1 b2 in
+  let d := sip_d a1 a2 b1 b2 in
+  let e := sip_e a1 a2 b1 b2 in
+  if Qeqb f 0 then
+    if Qeqb d 0 && Qeqb e 0 && ranges_overlap (px a1) (px a2) (px b1) (px b2)
+       && ranges_overlap (py a1) (py a2) (py b1) (py b2)
+    then (3%Z, x, y) else (0%Z, x, y)
+  else if unit_range (d / f) && unit_range (e / f) then
+    (1%Z, px a1 + (d * (px a2 - px a1)) / f, py a1 + (d * (py a2 - py a1)) / f)
+  else (0%Z, x, y).
+
+Definition spec_rayIntersectPoint (a1 a2 b1 b2 : pt) (x y : Q) : Z * Q * Q :=
+  let f := sip_den a1 a2 b1 b2 in
+  let d := sip_d a1 a2 b1 b2 in
+  if Qeqb f 0 then (3%Z, x, y)
+  else (1%Z, px a1 + (d * (px a2 - px a1)) / f, py a1 + (d * (py a2 - py a1)) / f).
+
+(* the code only, as compared on the grid *)
+Definition spec_segmentIntersectPoint_code (a1 a2 b1 b2 : pt) : Z :=
+  fst (fst (spec_segmentIntersectPoint a1 a2 b1 b2 0 0)).
+Definition spec_rayIntersectPoint_code (a1 a2 b1 b2 : pt) : Z :=
+  fst (fst (spec_rayIntersectPoint a1 a2 b1 b2 0 0)).
+
+(* --- algebra of the 2x2 system  a1 + s A = b1 - t B *)
+Lemma sip_param a1x a1y a2x a2y b1x b1y b2x b2y s t :
+  a1x + s * (a2x - a1x) == b1x + t * (b2x - b1x) ->
+  a1y + s * (a2y - a1y) == b1y + t * (b2y - b1y) ->
+  let f := (a2y - a1y) * (b1x - b2x) - (a2x - a1x) * (b1y - b2y) in
+  (b1y - b2y) * (a1x - b1x) - (b1x - b2x) * (a1y - b1y) == s * f /\
+  (a2x - a1x) * (a1y - b1y) - (a2y - a1y) * (a1x - b1x) == t * f.
+Proof.
+  intros Ex Ey f. unfold f.
+  assert (Cx : a1x - b1x == t * (b2x - b1x) - s * (a2x - a1x)) by lra.
+  assert (Cy : a1y - b1y == t * (b2y - b1y) - s * (a2y - a1y)) by lra.
+  rewrite Cx, Cy. split; ring.
+Qed.
+
+Lemma sip_solve a1x a1y a2x a2y b1x b1y b2x b2y :
+  let f := (a2y - a1y) * (b1x - b2x) - (a2x - a1x) * (b1y - b2y) in
+  let d := (b1y - b2y) * (a1x - b1x) - (b1x - b2x) * (a1y - b1y) in
+  let e := (a2x - a1x) * (a1y - b1y) - (a2y - a1y) * (a1x - b1x) in
+  ~ f == 0 ->
+  a1x + (d / f) * (a2x - a1x) == b1x + (e / f) * (b2x - b1x) /\
+  a1y + (d / f) * (a2y - a1y) == b1y + (e / f) * (b2y - b1y).
+Proof. intros f d e Hf. subst d e. unfold f in *. split; field; exact Hf. Qed.
+
+Lemma unit_range_spec v : unit_range v = true <-> 0 <= v /\ v <= 1.
+Proof. unfold unit_range. rewrite andb_true_iff, !Qleb_spec. tauto. Qed.
+
+Lemma Qdiv_mult_cancel d f : ~ f == 0 -> d / f * f == d.
+Proof. intros. field. assumption. Qed.
+Lemma Qdiv_of_mult s f : ~ f == 0 -> (s * f) / f == s.
+Proof. intros. field. assumption. Qed.
+
+(* --- 1-D ranges *)
+Lemma ranges_overlap_true p q r s :
+  ranges_overlap p q r s = true <->
+  (r <= p \/ r <= q \/ s <= p \/ s <= q) /\ (p <= r \/ p <= s \/ q <= r \/ q <= s).
+Proof.
+  unfold ranges_overlap, Qmin', Qmax'. rewrite andb_true_iff, !Qleb_spec.
+  repeat qcase; qb2p; lra.
+Qed.
+
+Lemma in_range_param a b x :
+  Qmin' a b <= x -> x <= Qmax' a b -> exists s, 0 <= s /\ s <= 1 /\ x == a + s * (b - a).
+Proof.
+  unfold Qmin', Qmax'. intros H1 H2.
+  destruct (Qeq_dec a b) as [E|E].
+  - exists 0. revert H1 H2. repeat qcase; qb2p; intros; repeat split; lra.
+  - exists ((x - a) / (b - a)).
+    assert (Hn : ~ b - a == 0) by (intro; lra).
+    split; [|split]; [| |field; exact Hn].
+    + destruct (Qlt_le_dec a b).
+      * apply Qle_shift_div_l; [lra|]. revert H1 H2. repeat qcase; qb2p; lra.
+      * assert (E' : (x - a) / (b - a) == (a - x) / (a - b)) by (field; split; lra). rewrite E'.
+        apply Qle_shift_div_l; [lra|]. revert H1 H2. repeat qcase; qb2p; lra.
+    + destruct (Qlt_le_dec a b).
+      * apply Qle_shift_div_r; [lra|]. revert H1 H2. repeat qcase; qb2p; lra.
+      * assert (E' : (x - a) / (b - a) == (a - x) / (a - b)) by (field; split; lra). rewrite E'.
+        apply Qle_shift_div_r; [lra|]. revert H1 H2. repeat qcase; qb2p; lra.
+Qed.
+
+Lemma param_in_range a b s : 0 <= s -> s <= 1 ->
+  Qmin' a b <= a + s * (b - a) /\ a + s * (b - a) <= Qmax' a b.
+Proof. intros. unfold Qmin', Qmax'. repeat qcase; qb2p; split; nra. Qed.
+
+Lemma overlap_1d a1 a2 b1 b2 :
+  ranges_overlap a1 a2 b1 b2 = true <->
+  exists s t, 0 <= s /\ s <= 1 /\ 0 <= t /\ t <= 1 /\ a1 + s * (a2 - a1) == b1 + t * (b2 - b1).
+Proof.
+  split.
+  - intros H.
+    set (x := Qmax' (Qmin' a1 a2) (Qmin' b1 b2)).
+    assert (Hx : (Qmin' a1 a2 <= x /\ x <= Qmax' a1 a2) /\ (Qmin' b1 b2 <= x /\ x <= Qmax' b1 b2)).
+    { unfold ranges_overlap in H. apply andb_true_iff in H. destruct H as [H1 H2]. qb2p.
+      revert H1 H2. unfold x, Qmin', Qmax'. repeat qcase; qb2p; lra. }
+    destruct Hx as [[Ha1 Ha2] [Hb1 Hb2]].
+    destruct (in_range_param a1 a2 x Ha1 Ha2) as (s & ? & ? & Es).
+    destruct (in_range_param b1 b2 x Hb1 Hb2) as (t & ? & ? & Et).
+    exists s, t. repeat split; try assumption. rewrite <- Es, <- Et. reflexivity.
+  - intros (s & t & Hs0 & Hs1 & Ht0 & Ht1 & E).
+    pose proof (param_in_range a1 a2 s Hs0 Hs1) as [A1 A2].
+    pose proof (param_in_range b1 b2 t Ht0 Ht1) as [B1 B2].
+    unfold ranges_overlap. rewrite andb_true_iff, !Qleb_spec. rewrite E in A1, A2. split; lra.
+Qed.
+
+(* --- the degenerate (f = 0) case: collinear segments *)
+Lemma par_second Ax Ay Bx By Cx Cy s t (e f : Q) :
+  ~ Ax == 0 -> Ax * Cy + s * (Ax * Ay) + t * (Ax * By) == Ay * (Cx + s * Ax + t * Bx) + e - t * f ->
+  e == 0 -> f == 0 -> Cx + s * Ax + t * Bx == 0 -> Cy + s * Ay + t * By == 0.
+Proof.
+  intros Hn Hid He Hf Hx.
+  assert (H : Ax * (Cy + s * Ay + t * By) == 0).
+  { assert (E : Ax * (Cy + s * Ay + t * By) == Ax * Cy + s * (Ax * Ay) + t * (Ax * By)) by ring.
+    rewrite E, Hid, Hx, He, Hf. ring. }
+  apply Qmult_integral in H. tauto.
+Qed.
+
+Lemma sip_parallel_meet a1 a2 b1 b2 :
+  sip_den a1 a2 b1 b2 == 0 -> sip_d a1 a2 b1 b2 == 0 -> sip_e a1 a2 b1 b2 == 0 ->
+  ranges_overlap (px a1) (px a2) (px b1) (px b2) = true ->
+  ranges_overlap (py a1) (py a2) (py b1) (py b2) = true ->
+  segs_meet a1 a2 b1 b2.
+Proof.
+  unfold sip_den, sip_d, sip_e, segs_meet, pt_eq, lerp; cbn [px py].
+  intros Hf Hd He Ox Oy.
+  set (Ax := px a2 - px a1) in *. set (Ay := py a2 - py a1) in *.
+  set (Bx := px b1 - px b2) in *. set (By := py b1 - py b2) in *.
+  set (Cx := px a1 - px b1) in *. set (Cy := py a1 - py b1) in *.
+  apply overlap_1d in Ox. apply overlap_1d in Oy.
+  destruct (Qeq_dec Ax 0) as [EAx|EAx].
+  2:{ destruct Ox as (s & t & ? & ? & ? & ? & Ex). exists s, t. repeat split; try assumption.
+      assert (Hx : Cx + s * Ax + t * Bx == 0) by (unfold Cx, Ax, Bx; lra).
+      assert (Hy : Cy + s * Ay + t * By == 0).
+      { apply (par_second Ax Ay Bx By Cx Cy s t (Ax * Cy - Ay * Cx) (Ay * Bx - Ax * By)); try assumption; ring. }
+      unfold Cy, Ay, By in Hy |- *. lra. }
+  destruct (Qeq_dec Ay 0) as [EAy|EAy].
+  2:{ destruct Oy as (s & t & ? & ? & ? & ? & Ey). exists s, t. repeat split; try assumption.
+      assert (Hy : Cy + s * Ay + t * By == 0) by (unfold Cy, Ay, By; lra).
+      assert (Hx : Cx + s * Ax + t * Bx == 0).
+      { apply (par_second Ay Ax By Bx Cy Cx s t (-(Ax * Cy - Ay * Cx)) (-(Ay * Bx - Ax * By))); try assumption; try lra; ring. }
+      unfold Cx, Ax, Bx in Hx |- *. lra. }
+  destruct (Qeq_dec Bx 0) as [EBx|EBx].
+  2:{ destruct Ox as (s & t & ? & ? & ? & ? & Ex). exists s, t. repeat split; try assumption.
+      assert (Hx : Cx + s * Ax + t * Bx == 0) by (unfold Cx, Ax, Bx; lra).
+      assert (Hy : Cy + t * By + s * Ay == 0).
+      { apply (par_second Bx By Ax Ay Cx Cy t s (-(By * Cx - Bx * Cy)) (-(Ay * Bx - Ax * By))); try assumption; try lra; ring. }
+      unfold Cy, Ay, By in Hy |- *. lra. }
+  destruct (Qeq_dec By 0) as [EBy|EBy].
+  2:{ destruct Oy as (s & t & ? & ? & ? & ? & Ey). exists s, t. repeat split; try assumption.
+      assert (Hy : Cy + s * Ay + t * By == 0) by (unfold Cy, Ay, By; lra).
+      assert (Hx : Cx + t * Bx + s * Ax == 0).
+      { apply (par_second By Bx Ay Ax Cy Cx t s (By * Cx - Bx * Cy) (Ay * Bx - Ax * By)); try assumption; try lra; ring. }
+      unfold Cx, Ax, Bx in Hx |- *. lra. }
+  destruct Ox as (s & t & ? & ? & ? & ? & Ex). destruct Oy as (s' & t' & ? & ? & ? & ? & Ey).
+  exists 0, 0. unfold Ax, Ay, Bx, By in *. repeat split; try lra; nra.
+Qed.
+
+Lemma segs_meet_overlap a1 a2 b1 b2 : segs_meet a1 a2 b1 b2 ->
+  ranges_overlap (px a1) (px a2) (px b1) (px b2) = true /\
+  ranges_overlap (py a1) (py a2) (py b1) (py b2) = true.
+Proof.
+  intros (s & t & ? & ? & ? & ? & [Ex Ey]). unfold lerp in *; cbn [px py] in *.
+  split; apply overlap_1d; exists s, t; tauto.
+Qed.
+
+Lemma segs_meet_param a1 a2 b1 b2 s t :
+  pt_eq (lerp a1 a2 s) (lerp b1 b2 t) ->
+  sip_d a1 a2 b1 b2 == s * sip_den a1 a2 b1 b2 /\ sip_e a1 a2 b1 b2 == t * sip_den a1 a2 b1 b2.
+Proof.
+  intros [Ex Ey]. unfold lerp in *; cbn [px py] in *.
+  exact (sip_param _ _ _ _ _ _ _ _ s t Ex Ey).
+Qed.
+
+(* the intersection point written as the code computes it *)
+Lemma sip_point_lerp a1 a2 b1 b2 :
+  let f := sip_den a1 a2 b1 b2 in let d := sip_d a1 a2 b1 b2 in
+  ~ f == 0 ->
+  pt_eq (mkpt (px a1 + (d * (px a2 - px a1)) / f) (py a1 + (d * (py a2 - py a1)) / f)) (lerp a1 a2 (d / f)).
+Proof. intros f d Hf. unfold pt_eq, lerp; cbn [px py]. split; field; exact Hf. Qed.
+
+Lemma sip_solve_pt a1 a2 b1 b2 :
+  let f := sip_den a1 a2 b1 b2 in
+  ~ f == 0 -> pt_eq (lerp a1 a2 (sip_d a1 a2 b1 b2 / f)) (lerp b1 b2 (sip_e a1 a2 b1 b2 / f)).
+Proof.
+  intros f Hf. unfold pt_eq, lerp; cbn [px py].
+  exact (sip_solve (px a1) (py a1) (px a2) (py a2) (px b1) (py b1) (px b2) (py b2) Hf).
+Qed.
+
+Lemma pt_eq_refl a : pt_eq a a.
+Proof. split; reflexivity. Qed.
+Lemma pt_eq_sym a b : pt_eq a b -> pt_eq b a.
+Proof. intros [? ?]; split; symmetry; assumption. Qed.
+Lemma pt_eq_trans a b c : pt_eq a b -> pt_eq b c -> pt_eq a c.
+Proof. intros [? ?] [? ?]; split; etransitivity; eassumption. Qed.
+Lemma lerp_param_eq a b s s' : s == s' -> pt_eq (lerp a b s) (lerp a b s').
+Proof. intros E. unfold pt_eq, lerp; cbn [px py]. rewrite E. split; reflexivity. Qed.
+
+Theorem spec_segmentIntersectPoint_ok a1 a2 b1 b2 x y :
+  segmentIntersectPoint_meaning a1 a2 b1 b2 x y (spec_segmentIntersectPoint a1 a2 b1 b2 x y).
+Proof.
+  unfold segmentIntersectPoint_meaning, spec_segmentIntersectPoint.
+  set (f := sip_den a1 a2 b1 b2). set (d := sip_d a1 a2 b1 b2). set (e := sip_e a1 a2 b1 b2).
+  destruct (Qeqb f 0) eqn:Ef; qb2p.
+  - (* parallel *)
+    destruct (_ && _) eqn:Eall; cbn [fst snd].
+    + apply andb_true_iff in Eall. destruct Eall as [Eall Oy]. apply andb_true_iff in Eall. destruct Eall as [Eall Ox].
+      apply andb_true_iff in Eall. destruct Eall as [Ed Ee]. qb2p.
+      assert (M : segs_meet a1 a2 b1 b2) by (apply sip_parallel_meet; assumption).
+      split; [|split; [|split; [|split]]]; try (split; intros; try discriminate; tauto); try tauto; try discriminate; auto.
+    + assert (M : ~ segs_meet a1 a2 b1 b2).
+      { intros M. destruct (segs_meet_overlap _ _ _ _ M) as [Ox Oy].
+        destruct M as (s & t & _ & _ & _ & _ & E). apply segs_meet_param in E. destruct E as [Ed Ee].
+        fold f d e in Ed, Ee. rewrite Ox, Oy in Eall. 
+        assert (Hd : Qeqb d 0 = true) by (apply Qeqb_spec; rewrite Ed, Ef; ring).
+        assert (He : Qeqb e 0 = true) by (apply Qeqb_spec; rewrite Ee, Ef; ring).
+        rewrite Hd, He in Eall. discriminate. }
+      split; [|split; [|split; [|split]]]; try (split; intros; try discriminate; tauto); try tauto; try discriminate; auto.
+  - destruct (_ && _) eqn:Eall; cbn [fst snd].
+    + apply andb_true_iff in Eall. destruct Eall as [Rd Re]. apply unit_range_spec in Rd, Re.
+      pose proof (sip_solve_pt a1 a2 b1 b2 Ef) as Hsol. fold f d e in Hsol.
+      pose proof (sip_point_lerp a1 a2 b1 b2 Ef) as Hpt. fold f d in Hpt. cbv zeta in Hpt.
+      assert (M : segs_meet a1 a2 b1 b2) by (exists (d / f), (e / f); tauto).
+      split; [|split; [|split; [|split]]]; try (split; intros; try discriminate; tauto); try tauto; try discriminate; auto.
+      intros _. split; [|split].
+      * exists (d / f). tauto.
+      * exists (e / f). split; [tauto|]. split; [tauto|]. eapply pt_eq_trans; eassumption.
+      * intros p H0 H1. destruct H0 as (s & _ & _ & Es). destruct H1 as (t & _ & _ & Et).
+        assert (E : pt_eq (lerp a1 a2 s) (lerp b1 b2 t)) by (eapply pt_eq_trans; [apply pt_eq_sym|]; eassumption).
+        apply segs_meet_param in E. destruct E as [Ed _]. fold f d in Ed.
+        assert (Es' : s == d / f) by (rewrite Ed; symmetry; apply Qdiv_of_mult; exact Ef).
+        eapply pt_eq_trans; [exact Es|]. eapply pt_eq_trans; [apply lerp_param_eq; exact Es'|].
+        apply pt_eq_sym. exact Hpt.
+    + assert (M : ~ segs_meet a1 a2 b1 b2).
+      { intros (s & t & Hs0 & Hs1 & Ht0 & Ht1 & E). apply segs_meet_param in E. destruct E as [Ed Ee].
+        fold f d e in Ed, Ee.
+        assert (Rd : unit_range (d / f) = true).
+        { apply unit_range_spec. rewrite Ed, Qdiv_of_mult by exact Ef. tauto. }
+        assert (Re : unit_range (e / f) = true).
+        { apply unit_range_spec. rewrite Ee, Qdiv_of_mult by exact Ef. tauto. }
+        rewrite Rd, Re in Eall. discriminate. }
+      split; [|split; [|split; [|split]]]; try (split; intros; try discriminate; tauto); try tauto; try discriminate; auto.
+Qed.
+
+Theorem spec_rayIntersectPoint_ok a1 a2 b1 b2 x y :
+  rayIntersectPoint_meaning a1 a2 b1 b2 x y (spec_rayIntersectPoint a1 a2 b1 b2 x y).
+Proof.
+  unfold rayIntersectPoint_meaning, spec_rayIntersectPoint.
+  set (f := sip_den a1 a2 b1 b2). set (d := sip_d a1 a2 b1 b2).
+  destruct (Qeqb f 0) eqn:Ef; qb2p; cbn [fst snd].
+  - split; [|split; [|split; [|split]]]; try (split; intros; try discriminate; tauto); try tauto; try discriminate; auto.
+  - pose proof (sip_solve_pt a1 a2 b1 b2 Ef) as Hsol. fold f d in Hsol.
+    pose proof (sip_point_lerp a1 a2 b1 b2 Ef) as Hpt. fold f d in Hpt. cbv zeta in Hpt.
+    split; [|split; [|split; [|split]]]; try (split; intros; try discriminate; tauto); try tauto; try discriminate; auto.
+    intros _. split; [|split].
+    + exists (d / f). exact Hpt.
+    + exists (sip_e a1 a2 b1 b2 / f). eapply pt_eq_trans; eassumption.
+    + intros p (s & Es) (t & Et).
+      assert (E : pt_eq (lerp a1 a2 s) (lerp b1 b2 t)) by (eapply pt_eq_trans; [apply pt_eq_sym|]; eassumption).
+      apply segs_meet_param in E. destruct E as [Ed _]. fold f d in Ed.
+      assert (Es' : s == d / f) by (rewrite Ed; symmetry; apply Qdiv_of_mult; exact Ef).
+      eapply pt_eq_trans; [exact Es|]. eapply pt_eq_trans; [apply lerp_param_eq; exact Es'|].
+      apply pt_eq_sym. exact Hpt.
+Qed.
+
+(* non-vacuity *)
+Example spec_segmentIntersectPoint_ex :
+  spec_segmentIntersectPoint (mkpt 0 0) (mkpt 2 2) (mkpt 0 2) (mkpt 2 0) 7 7 = (1%Z, 0 + (-4 * 2) / -8, 0 + (-4 * 2) / -8)
+  /\ spec_segmentIntersectPoint_code (mkpt 0 0) (mkpt 2 0) (mkpt 1 0) (mkpt 3 0) = 3%Z
+  /\ spec_segmentIntersectPoint_code (mkpt 0 0) (mkpt 2 0) (mkpt 1 0) (mkpt 1 0) = 3%Z
+  /\ spec_segmentIntersectPoint_code (mkpt 0 0) (mkpt 2 0) (mkpt 3 0) (mkpt 4 0) = 0%Z
+  /\ spec_rayIntersectPoint_code (mkpt 0 0) (mkpt 2 0) (mkpt 3 1) (mkpt 4 2) = 1%Z.
+Proof. vm_compute. repeat split. Qed.
+
+(* ================================================================================================
+   C16 extension (3-4): colinear, inBetween, cornerSide, inValidRegion *)
+
+Definition spec_colinear (a b c : pt) : bool := Qeqb (cross a b c) 0.
+
+Lemma cross_zero_on_line a b c : cross a b c == 0 -> ~ pt_eq a b -> on_line a b c.
+Proof.
+  unfold on_line, cross, pt_eq, lerp; cbn [px py]. intros Hc Hne.
+  destruct (Qeq_dec (px b) (px a)) as [Ex|Ex].
+  - assert (Ey : ~ py b - py a == 0) by (intro; apply Hne; split; lra).
+    exists ((py c - py a) / (py b - py a)). cbn [px py]. split.
+    + assert (H : (px c - px a) * (py b - py a) == 0) by (rewrite Ex in Hc; lra).
+      apply Qmult_integral in H. destruct H; [|tauto]. rewrite Ex. lra.
+    + field. exact Ey.
+  - assert (Ex' : ~ px b - px a == 0) by (intro; lra).
+    exists ((px c - px a) / (px b - px a)). cbn [px py]. split.
+    + field. exact Ex'.
+    + assert (H : (py c - py a - (px c - px a) / (px b - px a) * (py b - py a)) * (px b - px a) == 0).
+      { assert (E : (py c - py a - (px c - px a) / (px b - px a) * (py b - py a)) * (px b - px a) ==
+                    (px b - px a) * (py c - py a) - (px c - px a) * (py b - py a)) by (field; exact Ex').
+        rewrite E. exact Hc. }
+      apply Qmult_integral in H. destruct H; [lra|tauto].
+Qed.
+
+Theorem spec_colinear_ok a b c : spec_colinear a b c = true <-> collinear_pts a b c.
+Proof.
+  unfold spec_colinear, collinear_pts. rewrite Qeqb_spec. split.
+  - intros Hc. destruct (pt_eqb a b) eqn:E.
+    + left. apply pt_eqb_spec. exact E.
+    + right. apply cross_zero_on_line; [exact Hc|]. rewrite <- pt_eqb_spec. congruence.
+  - unfold on_line, pt_eq. intros [[Ex Ey]|(t & Ex & Ey)]; unfold cross, lerp in *; cbn [px py] in *.
+    + rewrite Ex, Ey. ring.
+    + rewrite Ex, Ey. ring.
+Qed.
+
+(* inBetween: "c strictly between a and b", meaningful for collinear triples *)
+Definition spec_inBetween (a b c : pt) : bool :=
+  negb (pt_eqb a b) && Qltb 0 (dot a c a b) && Qltb (dot a c a b) (dot a b a b).
+
+Lemma spec_inBetween_pointOnLine a b c : cross a b c == 0 -> spec_inBetween a b c = spec_pointOnLine a b c.
+Proof.
+  intros Hc. unfold spec_inBetween, spec_pointOnLine. apply Qeqb_spec in Hc. rewrite Hc, andb_true_r. reflexivity.
+Qed.
+
+Theorem spec_inBetween_ok a b c : cross a b c == 0 ->
+  (spec_inBetween a b c = true <-> strictly_between a b c).
+Proof. intros Hc. rewrite (spec_inBetween_pointOnLine a b c Hc). apply spec_pointOnLine_ok. Qed.
+
+(* cornerSide *)
+Definition spec_cornerSide (c1 c2 c3 p : pt) : Z :=
+  if Qltb 0 (cross c1 c2 c3) then
+    (if Qleb 0 (cross c1 c2 p) && Qleb 0 (cross c2 c3 p) then 1 else -1)%Z
+  else if Qltb (cross c1 c2 c3) 0 then
+    (if Qleb (cross c1 c2 p) 0 && Qleb (cross c2 c3 p) 0 then -1 else 1)%Z
+  else sgnQ (cross c1 c2 p).
+
+Theorem spec_cornerSide_ok c1 c2 c3 p : cornerSide_meaning c1 c2 c3 p (spec_cornerSide c1 c2 c3 p).
+Proof.
+  unfold cornerSide_meaning, spec_cornerSide.
+  destruct (Qltb 0 (cross c1 c2 c3)) eqn:E1; qb2p.
+  - split; [|split]; [|intros; lra|intros; lra]. intros _.
+    destruct (_ && _) eqn:E2.
+    + apply andb_true_iff in E2. destruct E2; qb2p. split; [reflexivity|tauto].
+    + split; [|reflexivity]. intros [? ?]. apply andb_false_iff in E2. destruct E2; qb2p; lra.
+  - destruct (Qltb (cross c1 c2 c3) 0) eqn:E3; qb2p.
+    + split; [|split]; [intros; lra| |intros; lra]. intros _.
+      destruct (_ && _) eqn:E2.
+      * apply andb_true_iff in E2. destruct E2; qb2p. split; [reflexivity|tauto].
+      * split; [|reflexivity]. intros [? ?]. apply andb_false_iff in E2. destruct E2; qb2p; lra.
+    + split; [|split]; [intros; lra|intros; lra|reflexivity].
+Qed.
+
+(* inValidRegion *)
+Definition spec_inValidRegion (ig : bool) (a0 a1 a2 b : pt) : bool :=
+  let r := cross a0 a1 b in let s := cross a1 a2 b in
+  if Qltb 0 (cross a0 a1 a2) then
+    if ig then (Qleb r 0 && Qleb 0 s) || (Qleb 0 r && Qleb s 0) else Qleb r 0 || Qleb s 0
+  else if ig then false else Qleb r 0 && Qleb s 0.
+
+Theorem spec_inValidRegion_ok ig a0 a1 a2 b :
+  inValidRegion_meaning ig a0 a1 a2 b (spec_inValidRegion ig a0 a1 a2 b).
+Proof.
+  unfold inValidRegion_meaning, spec_inValidRegion. cbv zeta.
+  destruct (Qltb 0 (cross a0 a1 a2)) eqn:E1; qb2p; destruct ig;
+    rewrite ?orb_true_iff, ?andb_true_iff, ?Qleb_spec;
+    (split; [|split; [|split]]); intros; try discriminate; try lra; try tauto; try reflexivity.
+Qed.
+
+(* convex corner, regions not ignored: valid exactly when b is not strictly inside the cone at a1 *)
+Corollary spec_inValidRegion_convex a0 a1 a2 b : 0 < cross a0 a1 a2 ->
+  (spec_inValidRegion false a0 a1 a2 b = true <-> ~ strictly_in_cone a0 a1 a2 b).
+Proof.
+  intros Hc. destruct (spec_inValidRegion_ok false a0 a1 a2 b) as (H & _).
+  rewrite (H Hc eq_refl). unfold strictly_in_cone. split; [intros [?|?] [? ?]; lra|].
+  intros Hn. destruct (Qlt_le_dec 0 (cross a0 a1 b)); [|tauto].
+  destruct (Qlt_le_dec 0 (cross a1 a2 b)); tauto.
+Qed.
+
+Example spec_cornerSide_ex :
+  spec_cornerSide (mkpt 0 0) (mkpt 1 0) (mkpt 1 1) (mkpt 0 1) = 1%Z /\
+  spec_cornerSide (mkpt 0 0) (mkpt 1 0) (mkpt 1 1) (mkpt 2 (-1)) = (-1)%Z /\
+  spec_inValidRegion false (mkpt 0 0) (mkpt 1 0) (mkpt 1 1) (mkpt 0 1) = false /\
+  spec_inValidRegion false (mkpt 0 0) (mkpt 1 0) (mkpt 1 1) (mkpt 2 0) = true /\
+  spec_colinear (mkpt 0 0) (mkpt 1 1) (mkpt 3 3) = true /\ spec_inBetween (mkpt 0 0) (mkpt 2 2) (mkpt 1 1) = true.
+Proof. vm_compute. repeat split. Qed.
+
+(* ================================================================================================
+   C16 extension (5): segmentShapeIntersect and its fold over the edges of a shape *)
+
+Definition spec_touchesEdge (e1 e2 s1 s2 : pt) : bool :=
+  ((pt_eqb s2 e1 || spec_pointOnLine s1 s2 e1) && negb (Z.eqb (spec_vecDir s1 s2 e2) 0)) ||
+  ((pt_eqb s2 e2 || spec_pointOnLine s1 s2 e2) && negb (Z.eqb (spec_vecDir s1 s2 e1) 0)).
+
+Definition spec_segmentShapeIntersect (e1 e2 s1 s2 : pt) (seen : bool) : bool * bool :=
+  if spec_segmentIntersect e1 e2 s1 s2 then (true, seen)
+  else if spec_touchesEdge e1 e2 s1 s2 then (seen, true) else (false, seen).
+
+Lemma spec_vecDir_nonzero a b c : negb (Z.eqb (spec_vecDir a b c) 0) = true <-> ~ cross a b c == 0.
+Proof.
+  unfold spec_vecDir. rewrite negb_true_iff, <- not_true_iff_false, Z.eqb_eq, sgnQ_zero. tauto.
+Qed.
+
+Theorem spec_touchesEdge_ok e1 e2 s1 s2 : spec_touchesEdge e1 e2 s1 s2 = true <-> touches_edge e1 e2 s1 s2.
+Proof.
+  unfold spec_touchesEdge, touches_edge, on_edge_halfopen.
+  rewrite !orb_true_iff, !andb_true_iff, !orb_true_iff, !spec_vecDir_nonzero, !pt_eqb_spec, !spec_pointOnLine_ok.
+  tauto.
+Qed.
+
+(* a touching end point lies on the edge line *)
+Lemma on_edge_halfopen_cross s1 s2 e : on_edge_halfopen s1 s2 e -> cross s1 s2 e == 0.
+Proof.
+  unfold on_edge_halfopen, strictly_between, pt_eq, lerp, cross; cbn [px py].
+  intros [[Ex Ey]|(_ & t & _ & _ & Ex & Ey)].
+  - rewrite <- Ex, <- Ey. ring.
+  - rewrite Ex, Ey. ring.
+Qed.
+
+(* a proper crossing and an end-point touch exclude each other *)
+Lemma spec_cross_touch_exclusive e1 e2 s1 s2 :
+  spec_segmentIntersect e1 e2 s1 s2 = true -> spec_touchesEdge e1 e2 s1 s2 = false.
+Proof.
+  intros Hc. apply not_true_iff_false. rewrite spec_touchesEdge_ok. intros Ht.
+  unfold spec_segmentIntersect in Hc. apply andb_true_iff in Hc. destruct Hc as [_ Hc].
+  apply opp_sides_spec in Hc.
+  destruct Ht as [[H _]|[H _]]; apply on_edge_halfopen_cross in H; nra.
+Qed.
+
+Theorem spec_segmentShapeIntersect_ok e1 e2 s1 s2 seen :
+  segmentShapeIntersect_meaning e1 e2 s1 s2 seen (spec_segmentShapeIntersect e1 e2 s1 s2 seen).
+Proof.
+  unfold segmentShapeIntersect_meaning, spec_segmentShapeIntersect.
+  rewrite <- spec_segmentIntersect_ok, <- spec_touchesEdge_ok.
+  destruct (spec_segmentIntersect e1 e2 s1 s2); destruct (spec_touchesEdge e1 e2 s1 s2);
+    repeat split; intros; try reflexivity; try congruence; exfalso; auto.
+Qed.
+
+(* --- threading the flag over the edges of one shape (the loops in graph.cpp / router.cpp) *)
+Definition spec_ssi_step (e1 e2 : pt) (st : bool * bool) (edge : pt * pt) : bool * bool :=
+  let r := spec_segmentShapeIntersect e1 e2 (fst edge) (snd edge) (snd st) in (fst st || fst r, snd r).
+Definition spec_shapeBlocks (e1 e2 : pt) (edges : list (pt * pt)) : bool :=
+  fst (fold_left (spec_ssi_step e1 e2) edges (false, false)).
+Definition spec_crossesEdge (e1 e2 : pt) (edge : pt * pt) : bool := spec_segmentIntersect e1 e2 (fst edge) (snd edge).
+Definition spec_touchCount (e1 e2 : pt) (edges : list (pt * pt)) : nat :=
+  length (filter (fun edge => spec_touchesEdge e1 e2 (fst edge) (snd edge)) edges).
+
+Lemma spec_ssi_fold e1 e2 edges : forall blk seen,
+  fst (fold_left (spec_ssi_step e1 e2) edges (blk, seen)) =
+  blk || existsb (spec_crossesEdge e1 e2) edges
+      || (2 <=? spec_touchCount e1 e2 edges + (if seen then 1 else 0))%nat.
+Proof.
+  induction edges as [|[s1 s2] l IH]; intros blk seen.
+  - cbn. destruct blk, seen; reflexivity.
+  - cbn [fold_left]. unfold spec_ssi_step at 2. cbn [fst snd]. unfold spec_segmentShapeIntersect.
+    unfold spec_touchCount in *. cbn [existsb filter]. unfold spec_crossesEdge at 1. cbn [fst snd].
+    destruct (spec_segmentIntersect e1 e2 s1 s2) eqn:Ec.
+    + rewrite (spec_cross_touch_exclusive _ _ _ _ Ec). cbn [fst snd]. rewrite IH.
+      rewrite orb_true_r. cbn [orb]. rewrite orb_true_r. reflexivity.
+    + destruct (spec_touchesEdge e1 e2 s1 s2) eqn:Et; cbn [fst snd length orb]; rewrite IH.
+      * destruct seen.
+        -- rewrite orb_true_r. cbn [orb]. symmetry. rewrite orb_true_iff. right. apply Nat.leb_le. lia.
+        -- rewrite orb_false_r. f_equal. f_equal. lia.
+      * rewrite orb_false_r. reflexivity.
+Qed.
+
+(* closed form: blocked iff some edge is properly crossed, or at least two edges are touched at an end point *)
+Theorem spec_shapeBlocks_closed e1 e2 edges :
+  spec_shapeBlocks e1 e2 edges =
+  existsb (spec_crossesEdge e1 e2) edges || (2 <=? spec_touchCount e1 e2 edges)%nat.
+Proof. unfold spec_shapeBlocks. rewrite spec_ssi_fold. cbn [orb]. rewrite Nat.add_0_r. reflexivity. Qed.
+
+(* stopping at the first blocking edge (as the C++ loops do) gives the same answer *)
+Fixpoint spec_shapeBlocks_break (e1 e2 : pt) (edges : list (pt * pt)) (seen : bool) : bool :=
+  match edges with
+  | [] => false
+  | edge :: l => let r := spec_segmentShapeIntersect e1 e2 (fst edge) (snd edge) seen in
+                 if fst r then true else spec_shapeBlocks_break e1 e2 l (snd r)
+  end.
+Lemma spec_ssi_fold_true e1 e2 l seen : fst (fold_left (spec_ssi_step e1 e2) l (true, seen)) = true.
+Proof. rewrite spec_ssi_fold. reflexivity. Qed.
+Theorem spec_shapeBlocks_break_eq e1 e2 edges : forall seen,
+  spec_shapeBlocks_break e1 e2 edges seen = fst (fold_left (spec_ssi_step e1 e2) edges (false, seen)).
+Proof.
+  induction edges as [|edge l IH]; intros seen; [reflexivity|].
+  cbn [spec_shapeBlocks_break fold_left]. unfold spec_ssi_step at 2. cbn [fst snd orb].
+  destruct (fst (spec_segmentShapeIntersect e1 e2 (fst edge) (snd edge) seen)).
+  - symmetry. apply spec_ssi_fold_true.
+  - apply IH.
+Qed.
+
+(* non-vacuity on the edges of a square: touching a corner once is allowed; a chord between two corners is blocked
+   by two touches; crossing two sides is blocked by a proper crossing; a chord from mid-side to mid-side is blocked
+   by two touches.  NOTE the third case: a segment through two opposite corners whose end points lie outside
+   crosses no edge *properly* and touches none with an end point, so this test alone does not block it. *)
+Example spec_shapeBlocks_ex :
+  let sq := [(mkpt 0 0, mkpt 2 0); (mkpt 2 0, mkpt 2 2); (mkpt 2 2, mkpt 0 2); (mkpt 0 2, mkpt 0 0)] in
+  spec_shapeBlocks (mkpt 2 2) (mkpt 5 3) sq = false /\ spec_touchCount (mkpt 2 2) (mkpt 5 3) sq = 1%nat /\
+  spec_shapeBlocks (mkpt 0 0) (mkpt 2 2) sq = true /\ spec_touchCount (mkpt 0 0) (mkpt 2 2) sq = 2%nat /\
+  spec_shapeBlocks (mkpt (-1) (-1)) (mkpt 3 3) sq = false /\ spec_touchCount (mkpt (-1) (-1)) (mkpt 3 3) sq = 0%nat /\
+  spec_shapeBlocks (mkpt 1 (-1)) (mkpt 1 3) sq = true /\
+  spec_shapeBlocks (mkpt 1 0) (mkpt 1 2) sq = true /\ spec_touchCount (mkpt 1 0) (mkpt 1 2) sq = 2%nat.
+Proof. vm_compute. repeat split. Qed.
+
+(* ================================================================================================
+   C16 extension (7): manhattanDist, projection *)
+Definition spec_manhattanDist (a b : pt) : Q := Qabs (px a - px b) + Qabs (py a - py b).
+
+Definition spec_projection (a b c : pt) : pt :=
+  let t := dot a c a b / dot a c a c in mkpt (t * (px c - px a) + px a) (t * (py c - py a) + py a).
+
+Lemma dot_self_pos a c : ~ pt_eq a c -> 0 < dot a c a c.
+Proof.
+  unfold pt_eq, dot. intros Hne.
+  destruct (Qeq_dec (px c - px a) 0) as [E|E], (Qeq_dec (py c - py a) 0) as [E'|E'];
+    [exfalso; apply Hne; split; lra | nra | nra | nra].
+Qed.
+
+Theorem spec_projection_ok a b c : ~ pt_eq a c ->
+  is_foot a c b (spec_projection a b c) /\ forall p, is_foot a c b p -> pt_eq p (spec_projection a b c).
+Proof.
+  intros Hne. pose proof (dot_self_pos a c Hne) as Hpos.
+  unfold is_foot, on_line, spec_projection, pt_eq, lerp. cbv zeta. cbn [px py].
+  set (t := dot a c a b / dot a c a c).
+  assert (Ht : t * dot a c a c == dot a c a b) by (unfold t; field; lra).
+  unfold dot in Ht, Hpos.
+  set (ux := px c - px a) in *. set (uy := py c - py a) in *.
+  split.
+  - split; [exists t; split; ring|].
+    assert (E : (px b - (t * ux + px a)) * ux + (py b - (t * uy + py a)) * uy ==
+                (ux * (px b - px a) + uy * (py b - py a)) - t * (ux * ux + uy * uy)) by ring.
+    rewrite E, Ht. ring.
+  - intros p [(s & Ex & Ey) Hperp]. fold ux uy in Ex, Ey.
+    assert (Es : s * (ux * ux + uy * uy) == ux * (px b - px a) + uy * (py b - py a)).
+    { rewrite Ex, Ey in Hperp. lra. }
+    assert (Est : (s - t) * (ux * ux + uy * uy) == 0) by lra.
+    apply Qmult_integral in Est. destruct Est as [Est|Est]; [|lra].
+    assert (s == t) by lra. rewrite Ex, Ey, H. split; ring.
+Qed.
+
+Example spec_projection_ex :
+  pt_eq (spec_projection (mkpt 0 0) (mkpt 3 4) (mkpt 2 0)) (mkpt 3 0) /\
+  spec_manhattanDist (mkpt 1 5) (mkpt 4 1) == 7.
+Proof. vm_compute. repeat split. Qed.
+
+(* ================================================================================================
+   C16 extension (6): inPolyGen - the crossing-parity rule, division free, and its meaning for triangles and
+   axis-parallel rectangles *)
+
+(* vertex p relative to the query point q *)
+Definition ipg_rel (q p : pt) : pt := mkpt (px p - px q) (py p - py q).
+(* numerator of the x-intercept of the edge u -> v with the x-axis (u, v relative to q); equals - cross u v q *)
+Definition ipg_N (u v : pt) : Q := px v * py u - px u * py v.
+(* the edge straddles the x-axis (upper / lower convention) and crosses it right / left of the origin *)
+Definition ipg_edgeR (u v : pt) : bool :=
+  xorb (Qltb 0 (py v)) (Qltb 0 (py u)) && Qltb 0 (ipg_N u v * (py u - py v)).
+Definition ipg_edgeL (u v : pt) : bool :=
+  xorb (Qltb (py v) 0) (Qltb (py u) 0) && Qltb (ipg_N u v * (py u - py v)) 0.
+Definition ipg_at_origin (p : pt) : bool := Qeqb (px p) 0 && Qeqb (py p) 0.
+Definition b2z (b : bool) : Z := if b then 1%Z else 0%Z.
+Definition ipg_count (f : pt -> pt -> bool) (P' : list pt) : Z :=
+  fold_right (fun i acc => (b2z (f (nth ((i + length P' - 1) mod length P') P' pt0) (nth i P' pt0)) + acc)%Z)
+             0%Z (seq 0 (length P')).
+Definition ipg_parity (R L : Z) : bool :=
+  if negb (Z.eqb (Z.rem R 2) (Z.rem L 2)) then true else Z.eqb (Z.rem R 2) 1.
+Definition spec_inPolyGen (P : list pt) (q : pt) : bool :=
+  let P' := map (ipg_rel q) P in
+  existsb ipg_at_origin P' || ipg_parity (ipg_count ipg_edgeR P') (ipg_count ipg_edgeL P').
+
+Lemma spec_inPolyGen_3 A B C q :
+  let a := ipg_rel q A in let b := ipg_rel q B in let c := ipg_rel q C in
+  spec_inPolyGen [A; B; C] q =
+  (ipg_at_origin a || (ipg_at_origin b || (ipg_at_origin c || false))) ||
+  ipg_parity (b2z (ipg_edgeR c a) + (b2z (ipg_edgeR a b) + (b2z (ipg_edgeR b c) + 0)))%Z
+             (b2z (ipg_edgeL c a) + (b2z (ipg_edgeL a b) + (b2z (ipg_edgeL b c) + 0)))%Z.
+Proof. reflexivity. Qed.
+
+Lemma spec_inPolyGen_4 A B C D q :
+  let a := ipg_rel q A in let b := ipg_rel q B in let c := ipg_rel q C in let d := ipg_rel q D in
+  spec_inPolyGen [A; B; C; D] q =
+  (ipg_at_origin a || (ipg_at_origin b || (ipg_at_origin c || (ipg_at_origin d || false)))) ||
+  ipg_parity (b2z (ipg_edgeR d a) + (b2z (ipg_edgeR a b) + (b2z (ipg_edgeR b c) + (b2z (ipg_edgeR c d) + 0))))%Z
+             (b2z (ipg_edgeL d a) + (b2z (ipg_edgeL a b) + (b2z (ipg_edgeL b c) + (b2z (ipg_edgeL c d) + 0))))%Z.
+Proof. reflexivity. Qed.
+
+(* --- sign algebra *)
+Definition S3 : list Z := [(-1)%Z; 0%Z; 1%Z].
+Lemma sgnQ_in_S3 x : In (sgnQ x) S3.
+Proof. destruct (sgnQ_cases x) as [[-> _]|[[-> _]|[-> _]]]; cbn; tauto. Qed.
+
+Ltac sgn3 x := destruct (sgnQ_cases x) as [[?H ?H]|[[?H ?H]|[?H ?H]]].
+
+Lemma sgnQ_is_pos x : Qltb 0 x = Z.eqb (sgnQ x) 1.
+Proof. sgn3 x; rewrite H; cbn; (apply Qltb_spec || apply Qltb_false); lra. Qed.
+Lemma sgnQ_is_neg x : Qltb x 0 = Z.eqb (sgnQ x) (-1).
+Proof. sgn3 x; rewrite H; cbn; (apply Qltb_spec || apply Qltb_false); lra. Qed.
+Lemma sgnQ_is_zero x : Qeqb x 0 = Z.eqb (sgnQ x) 0.
+Proof. sgn3 x; rewrite H; cbn; (apply Qeqb_spec || apply Qeqb_false); lra. Qed.
+Lemma sgnQ_is_nonneg x : Qleb 0 x = Z.leb 0 (sgnQ x).
+Proof. sgn3 x; rewrite H; cbn; (apply Qleb_spec || apply Qleb_false); lra. Qed.
+Lemma sgnQ_is_nonpos x : Qleb x 0 = Z.leb (sgnQ x) 0.
+Proof. sgn3 x; rewrite H; cbn; (apply Qleb_spec || apply Qleb_false); lra. Qed.
+
+Lemma sgnQ_val_neg x : x < 0 -> sgnQ x = (-1)%Z. Proof. apply sgnQ_neg. Qed.
+Lemma sgnQ_val_zero x : x == 0 -> sgnQ x = 0%Z. Proof. apply sgnQ_zero. Qed.
+Lemma sgnQ_val_pos x : 0 < x -> sgnQ x = 1%Z. Proof. apply sgnQ_pos. Qed.
+Ltac sgn_val := (apply sgnQ_val_neg || apply sgnQ_val_zero || apply sgnQ_val_pos); nra.
+
+Lemma sgnQ_mult x y : sgnQ (x * y) = (sgnQ x * sgnQ y)%Z.
+Proof. sgn3 x; sgn3 y; rewrite H, H1; cbn; sgn_val. Qed.
+Lemma sgnQ_opp x : sgnQ (- x) = (- sgnQ x)%Z.
+Proof. sgn3 x; rewrite H; cbn; sgn_val. Qed.
+
+(* what the signs of two summands say about the sign of their sum *)
+Definition sum2_ok (s1 s2 s : Z) : bool :=
+  if Z.eqb s1 0 then Z.eqb s s2 else if Z.eqb s2 0 then Z.eqb s s1 else if Z.eqb s1 s2 then Z.eqb s s1 else true.
+Lemma sgn_sum2 x y : sum2_ok (sgnQ x) (sgnQ y) (sgnQ (x + y)) = true.
+Proof.
+  sgn3 x; sgn3 y; rewrite H, H1; cbn; try reflexivity; apply Z.eqb_eq; sgn_val.
+Qed.
+(* three numbers summing to zero are not all >= 0 with one > 0, nor all <= 0 with one < 0 *)
+Definition sum3zero_ok (s1 s2 s3 : Z) : bool :=
+  negb (Z.leb 0 s1 && Z.leb 0 s2 && Z.leb 0 s3 && (Z.ltb 0 s1 || Z.ltb 0 s2 || Z.ltb 0 s3)) &&
+  negb (Z.leb s1 0 && Z.leb s2 0 && Z.leb s3 0 && (Z.ltb s1 0 || Z.ltb s2 0 || Z.ltb s3 0)).
+Lemma sgn_sum3_zero x y z : x + y + z == 0 -> sum3zero_ok (sgnQ x) (sgnQ y) (sgnQ z) = true.
+Proof.
+  intros E. sgn3 x; sgn3 y; sgn3 z; rewrite H, H1, H3; cbn; try reflexivity; exfalso; lra.
+Qed.
+Definition lt_ok (s t : Z) : bool := Z.leb s t && negb (Z.eqb s 0 && Z.eqb t 0).
+Lemma sgn_lt x y : x < y -> lt_ok (sgnQ x) (sgnQ y) = true.
+Proof. intros E. sgn3 x; sgn3 y; rewrite H, H1; cbn; try reflexivity; exfalso; lra. Qed.
+(* a strictly negative / positive sum *)
+Lemma sgn_sum3_neg x y z : x + y + z < 0 -> (Z.leb 0 (sgnQ x) && Z.leb 0 (sgnQ y) && Z.leb 0 (sgnQ z)) = false.
+Proof. intros E. sgn3 x; sgn3 y; sgn3 z; rewrite H, H1, H3; cbn; try reflexivity; exfalso; lra. Qed.
+Lemma sgn_sum3_pos x y z : 0 < x + y + z -> (Z.leb (sgnQ x) 0 && Z.leb (sgnQ y) 0 && Z.leb (sgnQ z) 0) = false.
+Proof. intros E. sgn3 x; sgn3 y; sgn3 z; rewrite H, H1, H3; cbn; try reflexivity; exfalso; lra. Qed.
+
+(* --- the edge tests on signs: su, sv = signs of the y-coordinates, n = sign of ipg_N *)
+Definition abs_edgeR (su sv n : Z) : bool :=
+  xorb (Z.eqb sv 1) (Z.eqb su 1) && Z.eqb (n * (if Z.eqb sv 1 then -1 else 1)) 1.
+Definition abs_edgeL (su sv n : Z) : bool :=
+  xorb (Z.eqb sv (-1)) (Z.eqb su (-1)) && Z.eqb (n * (if Z.eqb sv (-1) then 1 else -1)) (-1).
+Definition abs_origin (sx sy : Z) : bool := Z.eqb sx 0 && Z.eqb sy 0.
+
+Lemma ipg_edgeR_abs u v : ipg_edgeR u v = abs_edgeR (sgnQ (py u)) (sgnQ (py v)) (sgnQ (ipg_N u v)).
+Proof.
+  unfold ipg_edgeR, abs_edgeR. rewrite !sgnQ_is_pos, sgnQ_mult.
+  destruct (xorb _ _) eqn:X; [|reflexivity]. cbn [andb]. f_equal. f_equal.
+  revert X. sgn3 (py u); sgn3 (py v); rewrite H, H1; cbn; intro X; try discriminate; sgn_val.
+Qed.
+Lemma ipg_edgeL_abs u v : ipg_edgeL u v = abs_edgeL (sgnQ (py u)) (sgnQ (py v)) (sgnQ (ipg_N u v)).
+Proof.
+  unfold ipg_edgeL, abs_edgeL. rewrite !sgnQ_is_neg, sgnQ_mult.
+  destruct (xorb _ _) eqn:X; [|reflexivity]. cbn [andb]. f_equal. f_equal.
+  revert X. sgn3 (py u); sgn3 (py v); rewrite H, H1; cbn; intro X; try discriminate; sgn_val.
+Qed.
+Lemma ipg_at_origin_abs p : ipg_at_origin p = abs_origin (sgnQ (px p)) (sgnQ (py p)).
+Proof. unfold ipg_at_origin, abs_origin. rewrite !sgnQ_is_zero. reflexivity. Qed.
+
+(* local realisability: N = v.x * u.y - u.x * v.y *)
+Definition abs_local (sxu syu sxv syv n : Z) : bool := sum2_ok (sxv * syu) (- (sxu * syv)) n.
+Lemma ipg_N_local u v :
+  abs_local (sgnQ (px u)) (sgnQ (py u)) (sgnQ (px v)) (sgnQ (py v)) (sgnQ (ipg_N u v)) = true.
+Proof.
+  unfold abs_local, ipg_N. rewrite <- !sgnQ_mult, <- sgnQ_opp.
+  assert (E : px v * py u - px u * py v == px v * py u + - (px u * py v)) by ring.
+  rewrite E. apply sgn_sum2.
+Qed.
+
+(* --- finite sweeps over sign vectors *)
+Definition all_S3 (f : Z -> bool) : bool := forallb f S3.
+Lemma all_S3_sgn f x : all_S3 f = true -> f (sgnQ x) = true.
+Proof. unfold all_S3. rewrite forallb_forall. intros H. apply H, sgnQ_in_S3. Qed.
+
+Lemma Zleb_opp s : Z.leb 0 (- s) = Z.leb s 0.
+Proof. apply bool_ext. rewrite !Z.leb_le. lia. Qed.
+
+(* ---------------- triangles *)
+Definition tri_abs (sy0 sy1 sy2 sx0 sx1 sx2 nCA nAB nBC : Z) : bool :=
+  (abs_origin sx0 sy0 || (abs_origin sx1 sy1 || (abs_origin sx2 sy2 || false))) ||
+  ipg_parity (b2z (abs_edgeR sy2 sy0 nCA) + (b2z (abs_edgeR sy0 sy1 nAB) + (b2z (abs_edgeR sy1 sy2 nBC) + 0)))%Z
+             (b2z (abs_edgeL sy2 sy0 nCA) + (b2z (abs_edgeL sy0 sy1 nAB) + (b2z (abs_edgeL sy1 sy2 nBC) + 0)))%Z.
+
+Definition tri_check (ccw : bool) (sy0 sy1 sy2 sx0 sx1 sx2 nCA nAB nBC : Z) : bool :=
+  implb (abs_local sx2 sy2 sx0 sy0 nCA && abs_local sx0 sy0 sx1 sy1 nAB && abs_local sx1 sy1 sx2 sy2 nBC
+         && sum3zero_ok (nBC * sy0) (nCA * sy1) (nAB * sy2)
+         && negb (if ccw then Z.leb 0 nCA && Z.leb 0 nAB && Z.leb 0 nBC
+                  else Z.leb nCA 0 && Z.leb nAB 0 && Z.leb nBC 0))
+        (Bool.eqb (tri_abs sy0 sy1 sy2 sx0 sx1 sx2 nCA nAB nBC)
+                  (if ccw then Z.leb nCA 0 && (Z.leb nAB 0 && (Z.leb nBC 0 && true))
+                   else Z.leb 0 nCA && (Z.leb 0 nBC && (Z.leb 0 nAB && true)))).
+Definition tri_sweep (ccw : bool) : bool :=
+  all_S3 (fun sy0 => all_S3 (fun sy1 => all_S3 (fun sy2 => all_S3 (fun sx0 => all_S3 (fun sx1 => all_S3 (fun sx2 =>
+  all_S3 (fun nCA => all_S3 (fun nAB => all_S3 (fun nBC => tri_check ccw sy0 sy1 sy2 sx0 sx1 sx2 nCA nAB nBC))))))))).
+Lemma tri_sweep_ok : tri_sweep true = true /\ tri_sweep false = true.
+Proof. split; vm_compute; reflexivity. Qed.
+
+Lemma ipg_N_bary_y a b c : ipg_N b c * py a + ipg_N c a * py b + ipg_N a b * py c == 0.
+Proof. unfold ipg_N. ring. Qed.
+Lemma ipg_N_area A B C q :
+  ipg_N (ipg_rel q C) (ipg_rel q A) + ipg_N (ipg_rel q A) (ipg_rel q B) + ipg_N (ipg_rel q B) (ipg_rel q C)
+  == - cross A B C.
+Proof. unfold ipg_N, ipg_rel, cross; cbn [px py]. ring. Qed.
+Lemma cross_ipg_N u v q : cross u v q == - ipg_N (ipg_rel q u) (ipg_rel q v).
+Proof. unfold ipg_N, ipg_rel, cross; cbn [px py]. ring. Qed.
+Lemma cross_ipg_N' u v q : cross v u q == ipg_N (ipg_rel q u) (ipg_rel q v).
+Proof. unfold ipg_N, ipg_rel, cross; cbn [px py]. ring. Qed.
+
+Lemma spec_inPolyGen_tri_abs A B C q :
+  let a := ipg_rel q A in let b := ipg_rel q B in let c := ipg_rel q C in
+  spec_inPolyGen [A; B; C] q =
+  tri_abs (sgnQ (py a)) (sgnQ (py b)) (sgnQ (py c)) (sgnQ (px a)) (sgnQ (px b)) (sgnQ (px c))
+          (sgnQ (ipg_N c a)) (sgnQ (ipg_N a b)) (sgnQ (ipg_N b c)).
+Proof.
+  intros a b c. rewrite spec_inPolyGen_3. cbv zeta. fold a b c.
+  rewrite !ipg_edgeR_abs, !ipg_edgeL_abs, !ipg_at_origin_abs. reflexivity.
+Qed.
+
+Theorem spec_inPolyGen_triangle A B C q : ~ cross A B C == 0 ->
+  spec_inPolyGen [A; B; C] q =
+  if Qltb 0 (cross A B C) then spec_inPoly [A; B; C] q true else spec_inPoly [C; B; A] q true.
+Proof.
+  intros Hnd. rewrite spec_inPolyGen_tri_abs. cbv zeta.
+  set (a := ipg_rel q A). set (b := ipg_rel q B). set (c := ipg_rel q C).
+  pose proof (ipg_N_area A B C q) as Harea. fold a b c in Harea.
+  pose proof (sgn_sum3_zero _ _ _ (ipg_N_bary_y a b c)) as Hy. rewrite !sgnQ_mult in Hy.
+  pose proof (ipg_N_local c a) as L1. pose proof (ipg_N_local a b) as L2. pose proof (ipg_N_local b c) as L3.
+  destruct (Qltb 0 (cross A B C)) eqn:Eo; qb2p.
+  - pose proof (proj1 tri_sweep_ok) as H. unfold tri_sweep in H.
+    apply (all_S3_sgn _ (py a)) in H. apply (all_S3_sgn _ (py b)) in H. apply (all_S3_sgn _ (py c)) in H.
+    apply (all_S3_sgn _ (px a)) in H. apply (all_S3_sgn _ (px b)) in H. apply (all_S3_sgn _ (px c)) in H.
+    apply (all_S3_sgn _ (ipg_N c a)) in H. apply (all_S3_sgn _ (ipg_N a b)) in H. apply (all_S3_sgn _ (ipg_N b c)) in H.
+    unfold tri_check in H. rewrite L1, L2, L3, Hy in H.
+    assert (Hor : (Z.leb 0 (sgnQ (ipg_N c a)) && Z.leb 0 (sgnQ (ipg_N a b)) && Z.leb 0 (sgnQ (ipg_N b c))) = false)
+      by (apply sgn_sum3_neg; lra).
+    rewrite Hor in H. cbn [andb negb implb] in H. apply eqb_prop in H. rewrite H.
+    unfold spec_inPoly. cbn [length seq forallb]. unfold edge_cross. cbn [length Nat.add Nat.sub Nat.modulo Nat.divmod fst snd nth].
+    rewrite (cross_ipg_N C A q), (cross_ipg_N A B q), (cross_ipg_N B C q). fold a b c.
+    rewrite !sgnQ_is_nonneg, !sgnQ_opp, !Zleb_opp. reflexivity.
+  - pose proof (proj2 tri_sweep_ok) as H. unfold tri_sweep in H.
+    apply (all_S3_sgn _ (py a)) in H. apply (all_S3_sgn _ (py b)) in H. apply (all_S3_sgn _ (py c)) in H.
+    apply (all_S3_sgn _ (px a)) in H. apply (all_S3_sgn _ (px b)) in H. apply (all_S3_sgn _ (px c)) in H.
+    apply (all_S3_sgn _ (ipg_N c a)) in H. apply (all_S3_sgn _ (ipg_N a b)) in H. apply (all_S3_sgn _ (ipg_N b c)) in H.
+    unfold tri_check in H. rewrite L1, L2, L3, Hy in H.
+    assert (Hor : (Z.leb (sgnQ (ipg_N c a)) 0 && Z.leb (sgnQ (ipg_N a b)) 0 && Z.leb (sgnQ (ipg_N b c)) 0) = false)
+      by (apply sgn_sum3_pos; lra).
+    rewrite Hor in H. cbn [andb negb implb] in H. apply eqb_prop in H. rewrite H.
+    unfold spec_inPoly. cbn [length seq forallb]. unfold edge_cross. cbn [length Nat.add Nat.sub Nat.modulo Nat.divmod fst snd nth].
+    rewrite (cross_ipg_N' C A q), (cross_ipg_N' B C q), (cross_ipg_N' A B q). fold a b c.
+    rewrite !sgnQ_is_nonneg. reflexivity.
+Qed.
+
+(* ---------------- axis-parallel rectangles, any of the 8 vertex orders *)
+Definition quad_abs (sy0 sy1 sy2 sy3 sx0 sx1 sx2 sx3 n0 n1 n2 n3 : Z) : bool :=
+  (abs_origin sx0 sy0 || (abs_origin sx1 sy1 || (abs_origin sx2 sy2 || (abs_origin sx3 sy3 || false)))) ||
+  ipg_parity (b2z (abs_edgeR sy3 sy0 n0) + (b2z (abs_edgeR sy0 sy1 n1) + (b2z (abs_edgeR sy1 sy2 n2) + (b2z (abs_edgeR sy2 sy3 n3) + 0))))%Z
+             (b2z (abs_edgeL sy3 sy0 n0) + (b2z (abs_edgeL sy0 sy1 n1) + (b2z (abs_edgeL sy1 sy2 n2) + (b2z (abs_edgeL sy2 sy3 n3) + 0))))%Z.
+
+Lemma spec_inPolyGen_quad_abs A B C D q :
+  let a := ipg_rel q A in let b := ipg_rel q B in let c := ipg_rel q C in let d := ipg_rel q D in
+  spec_inPolyGen [A; B; C; D] q =
+  quad_abs (sgnQ (py a)) (sgnQ (py b)) (sgnQ (py c)) (sgnQ (py d)) (sgnQ (px a)) (sgnQ (px b)) (sgnQ (px c)) (sgnQ (px d))
+           (sgnQ (ipg_N d a)) (sgnQ (ipg_N a b)) (sgnQ (ipg_N b c)) (sgnQ (ipg_N c d)).
+Proof.
+  intros a b c d. rewrite spec_inPolyGen_4. cbv zeta. fold a b c d.
+  rewrite !ipg_edgeR_abs, !ipg_edgeL_abs, !ipg_at_origin_abs. reflexivity.
+Qed.
+
+(* a vertex order: for each vertex, (is it at x1 ?, is it at y1 ?) *)
+Definition rect_ccw : list (bool * bool) := [(true, false); (true, true); (false, true); (false, false)].
+Definition rot1 {A : Type} (l : list A) : list A := match l with [] => [] | x :: t => t ++ [x] end.
+Definition rect_orders : list (list (bool * bool)) :=
+  let r0 := rect_ccw in let r1 := rot1 r0 in let r2 := rot1 r1 in let r3 := rot1 r2 in
+  [r0; r1; r2; r3; rev r0; rev r1; rev r2; rev r3].
+Definition rect_poly (o : list (bool * bool)) (x0 x1 y0 y1 : Q) : list pt :=
+  map (fun b : bool * bool => mkpt (if fst b then x1 else x0) (if snd b then y1 else y0)) o.
+Definition rect_contains (x0 x1 y0 y1 : Q) (q : pt) : bool :=
+  Qleb x0 (px q) && Qleb (px q) x1 && Qleb y0 (py q) && Qleb (py q) y1.
+
+Definition rect_check (o : list (bool * bool)) (sxlo sxhi sylo syhi n0 n1 n2 n3 : Z) : bool :=
+  match o with
+  | [(bx0, by0); (bx1, by1); (bx2, by2); (bx3, by3)] =>
+    let sx0 := if bx0 then sxhi else sxlo in let sy0 := if by0 then syhi else sylo in
+    let sx1 := if bx1 then sxhi else sxlo in let sy1 := if by1 then syhi else sylo in
+    let sx2 := if bx2 then sxhi else sxlo in let sy2 := if by2 then syhi else sylo in
+    let sx3 := if bx3 then sxhi else sxlo in let sy3 := if by3 then syhi else sylo in
+    implb (lt_ok sxlo sxhi && lt_ok sylo syhi &&
+           abs_local sx3 sy3 sx0 sy0 n0 && abs_local sx0 sy0 sx1 sy1 n1 &&
+           abs_local sx1 sy1 sx2 sy2 n2 && abs_local sx2 sy2 sx3 sy3 n3)
+          (Bool.eqb (quad_abs sy0 sy1 sy2 sy3 sx0 sx1 sx2 sx3 n0 n1 n2 n3)
+                    (Z.leb sxlo 0 && Z.leb 0 sxhi && Z.leb sylo 0 && Z.leb 0 syhi))
+  | _ => true
+  end.
+Definition rect_sweep : bool :=
+  forallb (fun o => all_S3 (fun sxlo => all_S3 (fun sxhi => all_S3 (fun sylo => all_S3 (fun syhi =>
+  all_S3 (fun n0 => all_S3 (fun n1 => all_S3 (fun n2 => all_S3 (fun n3 =>
+    rect_check o sxlo sxhi sylo syhi n0 n1 n2 n3))))))))) rect_orders.
+Lemma rect_sweep_ok : rect_sweep = true.
+Proof. vm_compute. reflexivity. Qed.
+
+Lemma Qleb_sgn_lo a b : Qleb a b = Z.leb (sgnQ (a - b)) 0.
+Proof. sgn3 (a - b); rewrite H; cbn; (apply Qleb_spec || apply Qleb_false); lra. Qed.
+Lemma Qleb_sgn_hi a b : Qleb b a = Z.leb 0 (sgnQ (a - b)).
+Proof. sgn3 (a - b); rewrite H; cbn; (apply Qleb_spec || apply Qleb_false); lra. Qed.
+
+Theorem spec_inPolyGen_rect x0 x1 y0 y1 o q :
+  x0 < x1 -> y0 < y1 -> In o rect_orders ->
+  spec_inPolyGen (rect_poly o x0 x1 y0 y1) q = rect_contains x0 x1 y0 y1 q.
+Proof.
+  intros Hx Hy Ho.
+  pose proof rect_sweep_ok as H. unfold rect_sweep in H. rewrite forallb_forall in H. specialize (H o Ho).
+  assert (Lx : lt_ok (sgnQ (x0 - px q)) (sgnQ (x1 - px q)) = true) by (apply sgn_lt; lra).
+  assert (Ly : lt_ok (sgnQ (y0 - py q)) (sgnQ (y1 - py q)) = true) by (apply sgn_lt; lra).
+  unfold rect_contains.
+  rewrite (Qleb_sgn_lo x0 (px q)), (Qleb_sgn_hi x1 (px q)), (Qleb_sgn_lo y0 (py q)), (Qleb_sgn_hi y1 (py q)).
+  apply (all_S3_sgn _ (x0 - px q)) in H. apply (all_S3_sgn _ (x1 - px q)) in H.
+  apply (all_S3_sgn _ (y0 - py q)) in H. apply (all_S3_sgn _ (y1 - py q)) in H.
+  unfold rect_orders, rect_ccw in Ho. cbn [rot1 rev app In] in Ho.
+  repeat (destruct Ho as [<-|Ho]; [
+    unfold rect_poly; cbn [map fst snd]; rewrite spec_inPolyGen_quad_abs; cbv zeta; cbn [ipg_rel px py];
+    match goal with |- quad_abs _ _ _ _ _ _ _ _ (sgnQ (ipg_N ?d ?a)) (sgnQ (ipg_N _ ?b)) (sgnQ (ipg_N _ ?c)) _ = _ =>
+      apply (all_S3_sgn _ (ipg_N d a)) in H; apply (all_S3_sgn _ (ipg_N a b)) in H;
+      apply (all_S3_sgn _ (ipg_N b c)) in H; apply (all_S3_sgn _ (ipg_N c d)) in H;
+      pose proof (ipg_N_local d a) as L0; pose proof (ipg_N_local a b) as L1;
+      pose proof (ipg_N_local b c) as L2; pose proof (ipg_N_local c d) as L3
+    end;
+    cbn [ipg_rel px py] in L0, L1, L2, L3;
+    lazy beta iota zeta delta [rect_check] in H;
+    rewrite Lx, Ly, L0, L1, L2, L3 in H; cbn [andb implb] in H; apply eqb_prop in H; exact H
+  |]).
+  destruct Ho.
+Qed.
+
+(* q equal to a vertex: inside, whatever the polygon *)
+Theorem spec_inPolyGen_vertex P q : (exists p, In p P /\ pt_eq p q) -> spec_inPolyGen P q = true.
+Proof.
+  intros (p & Hin & Ex & Ey). unfold spec_inPolyGen. cbv zeta. apply orb_true_iff. left.
+  apply existsb_exists. exists (ipg_rel q p). split; [apply in_map; exact Hin|].
+  unfold ipg_at_origin, ipg_rel; cbn [px py]. apply andb_true_iff. split; apply Qeqb_spec; lra.
+Qed.
+
+(* closed region of a non-degenerate triangle, for either orientation *)
+Definition spec_triangle_region (A B C q : pt) : bool :=
+  if Qltb 0 (cross A B C) then spec_inPoly [A; B; C] q true else spec_inPoly [C; B; A] q true.
+
+Example spec_inPolyGen_ex :
+  spec_inPolyGen [mkpt 0 0; mkpt 4 0; mkpt 0 4] (mkpt 1 1) = true /\
+  spec_inPolyGen [mkpt 0 0; mkpt 4 0; mkpt 0 4] (mkpt 2 2) = true /\
+  spec_inPolyGen [mkpt 0 0; mkpt 4 0; mkpt 0 4] (mkpt 3 3) = false /\
+  spec_inPolyGen [mkpt 0 4; mkpt 4 0; mkpt 0 0] (mkpt 2 0) = true /\
+  spec_inPolyGen (rect_poly (rev (rot1 rect_ccw)) 0 3 0 2) (mkpt 3 1) = true /\
+  spec_inPolyGen (rect_poly rect_ccw 0 3 0 2) (mkpt 4 1) = false /\
+  In (rev (rot1 rect_ccw)) rect_orders.
+Proof. vm_compute. repeat split; auto 10. Qed.
+
+Theorem spec_triangle_region_ok A B C q : ~ cross A B C == 0 ->
+  (spec_triangle_region A B C q = true <-> in_closed_triangle A B C q).
+Proof.
+  intros Hnd. unfold spec_triangle_region, in_closed_triangle.
+  assert (E1 : spec_inPoly [A; B; C] q true =
+               Qleb 0 (cross C A q) && (Qleb 0 (cross A B q) && (Qleb 0 (cross B C q) && true))) by reflexivity.
+  assert (E2 : spec_inPoly [C; B; A] q true =
+               Qleb 0 (cross A C q) && (Qleb 0 (cross C B q) && (Qleb 0 (cross B A q) && true))) by reflexivity.
+  rewrite E1, E2.
+  assert (F1 : cross A C q == - cross C A q) by (unfold cross; ring).
+  assert (F2 : cross C B q == - cross B C q) by (unfold cross; ring).
+  assert (F3 : cross B A q == - cross A B q) by (unfold cross; ring).
+  rewrite F1, F2, F3.
+  destruct (Qltb 0 (cross A B C)) eqn:E; qb2p; rewrite !andb_true_iff, !Qleb_spec; split; intro H.
+  - left. tauto.
+  - destruct H as [H|H]; [tauto|lra].
+  - right. repeat split; lra.
+  - destruct H as [H|H]; [lra|]. repeat split; lra.
+Qed.
+
+Theorem rect_contains_ok x0 x1 y0 y1 q : rect_contains x0 x1 y0 y1 q = true <-> in_closed_rect x0 x1 y0 y1 q.
+Proof. unfold rect_contains, in_closed_rect. rewrite !andb_true_iff, !Qleb_spec. tauto. Qed.
